@@ -56,20 +56,17 @@ func newTokenSearch(term string) token {
 // tokenize parse and break a input into tokens ready to be
 // interpreted later by a parser to get the semantic.
 func tokenize(query string) ([]token, error) {
-	fields, err := splitFunc(query, unicode.IsSpace)
+	fields, err := splitFunc(query, unicode.IsSpace, false)
 	if err != nil {
 		return nil, err
 	}
 
 	var tokens []token
 	for _, field := range fields {
-		chunks, err := splitFunc(field, func(r rune) bool { return r == ':' })
+		// keep the empty chunks: "status::open" has an empty sub-qualifier
+		chunks, err := splitFunc(field, func(r rune) bool { return r == ':' }, true)
 		if err != nil {
 			return nil, err
-		}
-
-		if strings.HasPrefix(field, ":") || strings.HasSuffix(field, ":") {
-			return nil, fmt.Errorf("empty qualifier or value")
 		}
 
 		// pre-process chunks
@@ -111,8 +108,9 @@ func removeQuote(field string) string {
 }
 
 // split the input into chunks by splitting according to separatorFunc but respecting
-// quotes
-func splitFunc(input string, separatorFunc func(r rune) bool) ([]string, error) {
+// quotes. Empty chunks (two separators in a row, a leading or a trailing separator) are
+// dropped unless keepEmpty is set.
+func splitFunc(input string, separatorFunc func(r rune) bool, keepEmpty bool) ([]string, error) {
 	lastQuote := rune(0)
 	inQuote := false
 
@@ -140,7 +138,7 @@ func splitFunc(input string, separatorFunc func(r rune) bool) ([]string, error) 
 		if isChunk(r) {
 			chunk.WriteRune(r)
 		} else {
-			if chunk.Len() > 0 {
+			if chunk.Len() > 0 || keepEmpty {
 				result = append(result, chunk.String())
 				chunk.Reset()
 			}
@@ -151,7 +149,7 @@ func splitFunc(input string, separatorFunc func(r rune) bool) ([]string, error) 
 		return nil, fmt.Errorf("unmatched quote")
 	}
 
-	if chunk.Len() > 0 {
+	if chunk.Len() > 0 || keepEmpty {
 		result = append(result, chunk.String())
 	}
 
